@@ -114,7 +114,7 @@ class Stack(Formattable):
 
     def _format_header(self) -> str:
         if self.root is not None:
-            return f"stackscope.Stack of {self.root!r} (most recent call last):\n"
+            return f"stackscope.Stack of {_safe_repr(self.root)} (most recent call last):\n"
         else:
             return "stackscope.Stack (most recent call last):\n"
 
@@ -131,7 +131,7 @@ class Stack(Formattable):
                 marker = start_frame if idx == 0 else continue_frame
                 lines.append(marker + line)
         if self.leaf is not None:
-            lines.append(f"{start_leaf}{self.leaf!r}\n")
+            lines.append(f"{start_leaf}{_safe_repr(self.leaf)}\n")
         if self.error is not None:
             lines.extend(self._format_error())
         return lines
@@ -150,7 +150,7 @@ class Stack(Formattable):
         if self.frames:
             lines.extend(self.as_stdlib_summary(show_contexts=show_contexts).format())
         if self.leaf is not None:
-            lines.append(f"  Target of innermost frame: {self.leaf!r}\n")
+            lines.append(f"  Target of innermost frame: {_safe_repr(self.leaf)}\n")
         if self.error is not None:
             lines.extend(self._format_error())
         return lines
@@ -472,7 +472,7 @@ class Context(Formattable):
                     parent,
                     show_hidden_frames,
                     capture_locals,
-                    "# " + (subctx.description or repr(subctx)),
+                    "# " + (subctx.description or _safe_repr(subctx)),
                 )
 
     def _format(
@@ -518,7 +518,7 @@ class Context(Formattable):
             else:  # child task stack
                 sublines = child._format(opts)
                 if child.root is not None:
-                    sublines[0] = f"{child.root!r}\n"
+                    sublines[0] = f"{_safe_repr(child.root)}\n"
                 else:
                     sublines[0] = "<unidentified child>\n"
                 if child.frames:
